@@ -922,7 +922,7 @@ def _instancecheck_callable(value: Optional[Callable], type_: Any, _, context: D
 
     try:
         sig = inspect.signature(obj=value)
-    except TypeError:
+    except (TypeError, ValueError):  # ValueError: no signature available, e.g. for the builtin class int
         return False
 
     non_optional_params = {k: v for k, v in sig.parameters.items() if v.default == sig.empty}
